@@ -25,15 +25,15 @@ import (
 
 // Universe is serialisable (replay files).
 type Universe struct {
-	BaseURI   string           `json:"base_uri"` // ResolveOptions.BaseURI ("" = none) == retrieval URI of the root
-	Root      *jv.V            `json:"root"`
-	Docs      map[string]*jv.V `json:"docs"`       // URI served by the loader -> document (aliases map to equal documents)
+	BaseURI   string            `json:"base_uri"` // ResolveOptions.BaseURI ("" = none) == retrieval URI of the root
+	Root      *jv.V             `json:"root"`
+	Docs      map[string]*jv.V  `json:"docs"`            // URI served by the loader -> document (aliases map to equal documents)
 	Alias     map[string]string `json:"alias,omitempty"` // alias URI -> primary retrieval URI
-	LoaderNil bool             `json:"loader_nil,omitempty"`
-	Faults    []string         `json:"faults,omitempty"` // URIs on which the loader errors
-	Routes    []Route          `json:"routes"`
-	Markers   []string         `json:"markers"`
-	Notes     []string         `json:"notes,omitempty"`
+	LoaderNil bool              `json:"loader_nil,omitempty"`
+	Faults    []string          `json:"faults,omitempty"` // URIs on which the loader errors
+	Routes    []Route           `json:"routes"`
+	Markers   []string          `json:"markers"`
+	Notes     []string          `json:"notes,omitempty"`
 }
 
 // Route is a path of property names from the root; following it ends at the node whose
@@ -77,13 +77,13 @@ type doc struct {
 }
 
 type gen struct {
-	t        *rapid.T
-	docs     []*doc
-	nodes    []*node
-	nmark    int
-	usedURI  map[string]bool
-	hasBase  bool
-	notes    []string
+	t       *rapid.T
+	docs    []*doc
+	nodes   []*node
+	nmark   int
+	usedURI map[string]bool
+	hasBase bool
+	notes   []string
 }
 
 func (g *gen) n(k int, l string) int { return rapid.IntRange(0, k-1).Draw(g.t, l) }
